@@ -12,10 +12,17 @@ def stub():
         def __call__(self, *a, **k):
             if len(a) == 1 and callable(a[0]) and not k: return a[0]
             return Any()
-        def __getattr__(self, n): return Any()
+        def __getattr__(self, n):
+            if n.startswith("__"):
+                raise AttributeError(n)
+            return Any()
     for name in ["cocotb", "cocotb.clock", "cocotb.triggers", "cocotb.binary", "cocotb_test", "cocotb_test.simulator", "cocotb.types", "cocotb.handle", "cocotb.utils", "cocotb.result"]:
         m = types.ModuleType(name)
-        m.__getattr__ = lambda n: Any()
+        def _ga(n):
+            if n.startswith("__"):
+                raise AttributeError(n)
+            return Any()
+        m.__getattr__ = _ga
         sys.modules[name] = m
 
 def work(path):
